@@ -11,7 +11,6 @@ import (
 
 type (
 	Locker = sync.Locker
-	Pool   = sync.Pool
 	Map    = sync.Map
 	Cond   = sync.Cond
 )
@@ -183,4 +182,54 @@ func (o *Once) Do(f func()) {
 		defer func() { o.done = true }()
 		f()
 	}
+}
+
+// Pool models sync.Pool as a LIFO free list under the scheduler (the per-P cache of the real
+// pool hands an object that was just Put to the next Get on the same P; LIFO makes that
+// worst case for sharing deterministic). Get and Put are scheduling points; a Put happens
+// before the Get that returns the object. Objects kept by a modelled pool live as long as
+// the pool (no GC drain), which only adds reuse.
+type Pool struct {
+	New   func() any
+	real  sync.Pool
+	items []any
+	hb    vrt.Sync
+}
+
+func (p *Pool) Get() any {
+	s := vrt.Cur()
+	if s == nil {
+		if v := p.real.Get(); v != nil {
+			return v
+		}
+		if p.New != nil {
+			return p.New()
+		}
+		return nil
+	}
+	s.Point("Pool.Get")
+	if n := len(p.items); n > 0 {
+		v := p.items[n-1]
+		p.items = p.items[:n-1]
+		s.Acquire(&p.hb)
+		return v
+	}
+	if p.New != nil {
+		return p.New()
+	}
+	return nil
+}
+
+func (p *Pool) Put(x any) {
+	s := vrt.Cur()
+	if s == nil {
+		p.real.Put(x)
+		return
+	}
+	if x == nil {
+		return
+	}
+	s.Release(&p.hb)
+	p.items = append(p.items, x)
+	s.Point("Pool.Put") // after the object is back in the pool: another thread may take it now
 }
